@@ -351,6 +351,7 @@ ENUM_VARIANTS = {
     'std::borrow::Cow': ['Borrowed', 'Owned'],
     'std::net::SocketAddr': ['V4', 'V6'],
     'std::net::IpAddr': ['V4', 'V6'],
+    'std::num::IntErrorKind': ['Empty', 'InvalidDigit', 'PosOverflow', 'NegOverflow', 'Zero'],
 }
 
 
